@@ -104,7 +104,7 @@ func checkConc(t *testing.T, c ConcCase) harness.Verdict {
 	for _, k := range c.Logs {
 		logs = append(logs, newLogID(k.key()))
 	}
-	s, err := newSUT(logs, c.Witness.key(), c.MaxConns, c.HTTP)
+	s, err := newSUT(logs, c.Witness.key(), c.MaxConns, c.HTTP, false)
 	if err != nil {
 		v.Failf("setup", "cannot build the witness: %v", err)
 		return v
